@@ -434,6 +434,7 @@ pub fn run(tier: Tier, budget: f64, out: &mut Outcome) -> Result<(), MachineryEr
         out.new_violations.push(write_struct_replay(v));
     }
     out.samples.push(json!({"cell": "c12a-confirm-history", "history": ["new(4294967231)", "confirm(4294967295)", "confirm(0)"], "queries": "contains(t), contains_any(s,e) for all s<=e in [last-70,last+3]"}));
+    crate::props::regression_replays("C12", out)?;
     check::run_cells(out, end_to_end_cells(tier), budget * 0.6, 12)
 }
 
